@@ -26,7 +26,7 @@
     [C17_import_correct_doc_partial] takes its meaning-preservation as an explicit hypothesis. *)
 From Coq Require Import String List QArith.
 From SbmlImp Require Import SbmlExpr SbmlImport SbmlRun SbmlSpec SbmlProofs SbmlWitness SbmlRefute SbmlRunProofs SbmlPick
-  SbmlVariants SbmlWitness2 SbmlVariantsProofs GenSbmlFacts.
+  SbmlVariants SbmlWitness2 SbmlVariantsProofs SbmlClose3 SbmlWitness3 SbmlClose3Proofs GenSbmlFacts.
 Import ListNotations.
 Open Scope string_scope.
 
@@ -264,3 +264,101 @@ Theorem C17_math_names_are_free :
   /\ NoReserved2 expected_facts2 w_mathids /\ ~ NoReserved2 bare_facts2 w_mathids.
 Proof. exact (math_names_statement gen_facts gen_facts2 C17_facts_pinned C17_facts2_pinned). Qed.
 Print Assumptions C17_math_names_are_free.
+
+(** ---------------------------------------------------------------------------------------------------
+    Round-3 closing.  Three further regenerated facts (SbmlClose3.v: when valid_filename prefixes the slug of the
+    file stem, how equalities are printed into a generated def, what the body of a generated def consists of). *)
+Theorem C17_facts3_pinned : gen_facts3 = expected_facts3.
+Proof. vm_compute. reflexivity. Qed.
+Print Assumptions C17_facts3_pinned.
+
+(** The module name of a read -- file name in the cache directory AND key of the generated module in
+    sys.modules -- is the name the older theorems use and never the name of a module that generated code
+    imports (math, scipy, mxlpy), whatever the file is called *)
+Theorem C17_module_name_is_no_imported_module :
+  forall stem : string,
+    module_name3 gen_facts3 gen_facts stem = out_name gen_facts stem
+    /\ ~ In (module_name3 gen_facts3 gen_facts stem) imported_modules.
+Proof. exact (module_name_statement gen_facts3 gen_facts C17_facts3_pinned C17_facts_pinned). Qed.
+Print Assumptions C17_module_name_is_no_imported_module.
+
+(** ... hence for ANY sequence of documents under ANY file stems read in one interpreter whose sys.modules
+    holds the libraries, every generated module that is built binds math / scipy / mxlpy to the libraries
+    ([Some true]; [None] = no model was built) *)
+Theorem C17_libraries_survive_any_session :
+  forall (fs : expr -> list string) (l : list (string * tmodel)) (mods : list (string * modval)),
+    imports_ok mods = true ->
+    Forall (fun o => o = None \/ o = Some true) (session3 gen_facts3 gen_facts fs mods l).
+Proof. exact (libraries_survive gen_facts3 gen_facts C17_facts3_pinned C17_facts_pinned). Qed.
+Print Assumptions C17_libraries_survive_any_session.
+
+(** regression witness for the seeded shape C17-7 ([bare_stem_facts3]: a slug that is an identifier and no
+    keyword is returned without the prefix): math.xml / Math.xml get the module name "math" (test-suite stems and
+    keywords keep the prefix); in the session alpha.xml, math.xml, beta.xml the first document is fine, the
+    second replaces sys.modules["math"], so its own functions and those of every later document no longer see
+    the library.  With the facts of the tree all three do *)
+Theorem C17_identifier_stem_replaces_math_refuted :
+  module_name3 bare_stem_facts3 gen_facts "math" = "math"
+  /\ module_name3 bare_stem_facts3 gen_facts "Math" = "math"
+  /\ module_name3 bare_stem_facts3 gen_facts "00001-sbml-l3v2" = "mb_00001_sbml_l3v2"
+  /\ module_name3 bare_stem_facts3 gen_facts "class" = "mb_class"
+  /\ session3 bare_stem_facts3 gen_facts fsyms fresh_interpreter [("alpha", w_base1); ("math", w_base5); ("beta", w_base1)]
+     = [Some true; Some false; Some false]
+  /\ session3 expected_facts3 gen_facts fsyms fresh_interpreter [("alpha", w_base1); ("math", w_base5); ("beta", w_base1)]
+     = [Some true; Some true; Some true].
+Proof. exact (identifier_stem_replaces_math gen_facts C17_facts_pinned). Qed.
+Print Assumptions C17_identifier_stem_replaces_math_refuted.
+
+(** for the facts of the tree a generated def evaluates relations (also eq / neq: [REq] / [RNe], which the import
+    theorems above cover like every other relation, for every algebra) exactly, its body is the printed
+    expression, and the correspondence case behind the three steps is the one of round 2 *)
+Theorem C17_conditions_and_bodies_as_printed :
+  printed_alg (f_eq_print gen_facts3) = q_alg
+  /\ (forall (V : Type) (A : alg V) (env : string -> option V) (e : expr),
+        eval_body A (f_body gen_facts3) env e = eval A env e)
+  /\ (forall (G : facts2) (F : facts) (c : case), case_ok3 gen_facts3 G F c = case_ok2 G F c).
+Proof. exact (as_printed gen_facts3 C17_facts3_pinned). Qed.
+Print Assumptions C17_conditions_and_bodies_as_printed.
+
+(** the conditional of a printed expression evaluates its condition and then the SELECTED branch only: whether
+    the other branch can be evaluated at all (division by zero, domain error) does not matter -- for every algebra *)
+Theorem C17_guard_protects_its_branch :
+  forall (V : Type) (A : alg V) (env : string -> option V) (v : expr) (r : rel) (a b e' : expr) (x y : V),
+    eval A env a = Some x -> eval A env b = Some y ->
+    eval A env (EPw v r a b e') = if a_rel A r x y then eval A env v else eval A env e'.
+Proof. exact guard_protects. Qed.
+Print Assumptions C17_guard_protects_its_branch.
+
+(** regression witness for the seeded shape C17-8 ([EqIsClose]: eq / neq printed as math.isclose, relative
+    tolerance 1e-9, read over the rationals): the document of seeded/C17-8 (v1 = k1*S1 if S1 == S2 else k2*S1)
+    meets every hypothesis of the import theorem; at S1 = 1, S2 = 1 + 2^-31 the document gives dS1/dt = -3
+    (what the model computes with exact relations), the module with isclose computes -1/2 *)
+Theorem C17_isclose_equality_refuted :
+  exists ic args r ic' args' r',
+    WellFormed w_eqcond /\ NoReserved w_eqcond /\ Closed w_eqcond /\ NoKeyCollision gen_facts fsyms w_eqcond
+    /\ observe q_alg (run_module gen_facts fsyms "mb_w" w_eqcond) [w_near_state] = Val (ic, [(args, r)])
+    /\ observe (printed_alg EqIsClose) (run_module gen_facts fsyms "mb_w" w_eqcond) [w_near_state] = Val (ic', [(args', r')])
+    /\ lookup "S1" r = Some (-3 # 1)%Q /\ lookup "S1" r' = Some (-1 # 2)%Q.
+Proof. exact (isclose_equality_refuted gen_facts C17_facts_pinned). Qed.
+Print Assumptions C17_isclose_equality_refuted.
+
+(** regression witness for the seeded shape C17-9 ([BodyCse]: repeated compound sub-expressions are computed
+    before the return statement; [repeated] is a syntactic reading of what a common-subexpression pass pulls
+    out): the law of v1 in the rational sibling of the document of seeded/C17-9, (S2/S1 + k1/S1) if S1 > 0
+    else k2, on its guard S1 = 0: the printed expression gives k2 = 3, with 1/S1 hoisted the call raises.
+    Where a hoisted body does return a value it is the expression's *)
+Theorem C17_hoisted_guarded_term_refuted :
+  (exists rx, lookup "v1" (t_rxn w_guarded) = Some rx /\ tr_expr rx = w_guard_law)
+  /\ WellFormed w_guarded /\ NoReserved w_guarded /\ Closed w_guarded
+  /\ eval q_alg w_guard_env w_guard_law = Some (3 # 1)%Q
+  /\ eval_body q_alg BodyExpr w_guard_env w_guard_law = Some (3 # 1)%Q
+  /\ In (EPow (ESym "S1") (-1)) (repeated w_guard_law)
+  /\ eval_body q_alg BodyCse w_guard_env w_guard_law = None.
+Proof. exact hoisted_guarded_term_refuted. Qed.
+Print Assumptions C17_hoisted_guarded_term_refuted.
+
+Theorem C17_hoisted_body_agrees_where_defined :
+  forall (V : Type) (A : alg V) (env : string -> option V) (e : expr) (v : V),
+    eval_body A BodyCse env e = Some v -> eval A env e = Some v.
+Proof. exact cse_agrees_where_defined. Qed.
+Print Assumptions C17_hoisted_body_agrees_where_defined.
